@@ -19,6 +19,7 @@ type hImpl struct {
 	el   []*heapz.Element[int] // id (allocation order) -> element
 	ids  map[*heapz.Element[int]]int
 	seqs []iter.Seq[int] // slot -> the Seq value `h.PopAll()` returned when `seq` was executed
+	curs []cursor        // cursor number -> next / stop of `iter.Pull(seqs[slot])`
 }
 
 // heapCaps is the set the generator draws the capacities given to New from: pushes cross them
@@ -137,6 +138,7 @@ func heapIdx(t string) int {
 func implHeap(c core.Case) []string {
 	d := &hImpl{ids: map[*heapz.Element[int]]int{}}
 	var cmp func(a, b int) bool
+	defer func() { stopAll(d.curs) }()
 	return core.RunOps(c,
 		func(hdr []string) string {
 			if len(hdr) < 1 {
@@ -199,6 +201,29 @@ func (d *hImpl) step(t []string, cmp func(a, b int) bool) string {
 		return fmt.Sprint(takeSeq(d.seqs[sl], 0))
 	case t[0] == "range" || t[0] == "rangeall":
 		return "bad-op"
+	case t[0] == "pull" || t[0] == "next" || t[0] == "stop":
+		if len(t) != 2 {
+			return "bad-op"
+		}
+		if t[0] == "pull" {
+			// next, stop := iter.Pull(q): nothing runs before the first next()
+			sl, ok := slotOf(t[1], len(d.seqs))
+			if !ok {
+				return "bad-op"
+			}
+			next, stop := iter.Pull(d.seqs[sl])
+			d.curs = append(d.curs, cursor{next, stop})
+			return "ok"
+		}
+		cu, ok := slotOf(t[1], len(d.curs))
+		if !ok {
+			return "bad-op"
+		}
+		if t[0] == "stop" {
+			d.curs[cu].stop()
+			return "ok"
+		}
+		return showNext(d.curs[cu].next())
 	}
 	k := heapIdx(t[1])
 	if k < 0 {
@@ -293,6 +318,14 @@ func (d *hImpl) step(t []string, cmp func(a, b int) bool) string {
 			c.Fix(e)
 		}
 		return "ok"
+	case t[0] == "popallbody" && len(t) >= 3:
+		// the loop body uses the heaps (see body.go)
+		stop, ok1 := natTok(t[2])
+		items, ok2 := parseBodyItems(t[3:], true, len(d.el))
+		if !ok1 || !ok2 {
+			return "bad-op"
+		}
+		return d.popAllBody(k, stop, items)
 	case t[0] == "popall" && len(t) == 2:
 		return fmt.Sprint(takeSeq(h.PopAll(), 0))
 	case t[0] == "popalln" && len(t) == 3:
@@ -412,11 +445,25 @@ func checkHeap(c core.Case, out []string) *core.Failure {
 			dirty[e] = true
 		}
 	}
+	type hcur struct {
+		slot int
+		done bool // exhausted (a next() found the heap empty) or stopped
+	}
+	var curs []hcur // iter.Pull cursors, in creation order
 	var prevCells []cell
 	for i := 0; i < len(c.Lines); i++ {
 		t := core.Toks(c.Lines[i])
 		if out[i] == "bad-op" {
 			return nil
+		}
+		// amb: a popallbody line yielded a value that several live elements carry (identical
+		// values): which HANDLE left is then a guess, and no failure is reported from that line
+		amb := false
+		fail := func(key string, i int, c core.Case, out []string, f string, a ...any) *core.Failure {
+			if amb {
+				return nil
+			}
+			return fail(key, i, c, out, f, a...)
 		}
 		if i > 0 && len(t) >= 2 && (t[0] == "range" || t[0] == "rangeall") {
 			// ranging over a stored Seq: the Seq is `h.PopAll()` of the heap it was made from, and
@@ -585,6 +632,233 @@ func checkHeap(c core.Case, out []string) *core.Failure {
 						if cells[o].idx != prevCells[o].idx || (o != e && cells[o].val != prevCells[o].val) {
 							return fail("heap-fix-stale", i, c, out, "Fix with a stale/foreign handle must not change anything but the written Value (before: %s)", tail(out[i-1]))
 						}
+					}
+				}
+			case "pull":
+				// next, stop := iter.Pull(q): nothing is popped before the first next()
+				sl, ok := slotOf(t[1], len(seqHeap))
+				if !ok {
+					return nil
+				}
+				if res != "ok" || tail(out[i]) != tail(out[i-1]) {
+					return fail("heap-pull-create", i, c, out, "iter.Pull(q) without a next() must not change anything (before: %s)", tail(out[i-1]))
+				}
+				curs = append(curs, hcur{slot: sl})
+			case "stop":
+				cn, ok := slotOf(t[1], len(curs))
+				if !ok {
+					return nil
+				}
+				if res != "ok" || tail(out[i]) != tail(out[i-1]) {
+					return fail("heap-stop", i, c, out, "stop() must not change the heap (before: %s)", tail(out[i-1]))
+				}
+				curs[cn].done = true
+			case "next":
+				// one next() on an active cursor = one Pop of the heap the Seq belongs to
+				cn, ok := slotOf(t[1], len(curs))
+				if !ok {
+					return nil
+				}
+				cu := &curs[cn]
+				hk := seqHeap[cu.slot]
+				if zv && !inited[hk] {
+					return nil
+				}
+				if cu.done {
+					if res != "0 false" || tail(out[i]) != tail(out[i-1]) {
+						return fail("heap-next-finished", i, c, out, "cursor %d is finished (stopped, or a next() found the heap empty): next() must answer (0,false) and change nothing (before: %s)", cn, tail(out[i-1]))
+					}
+					break
+				}
+				if anyDirty(hk) {
+					broken[hk] = true
+				}
+				if len(live[hk]) == 0 {
+					if res != "0 false" || tail(out[i]) != tail(out[i-1]) {
+						return fail("heap-next-empty", i, c, out, "next() on an empty heap must answer (0,false) and change nothing (before: %s)", tail(out[i-1]))
+					}
+					cu.done = true
+					break
+				}
+				f := strings.Fields(res)
+				v, err := 0, error(nil)
+				if len(f) == 2 {
+					v, err = strconv.Atoi(f[0])
+				}
+				if len(f) != 2 || f[1] != "true" || err != nil {
+					return fail("heap-next", i, c, out, "next() of an active cursor on a heap of %d elements must yield one", len(live[hk]))
+				}
+				var gone []int
+				for e := range live[hk] {
+					if e < len(cells) && cells[e].idx == -1 {
+						gone = append(gone, e)
+					}
+				}
+				sort.Ints(gone)
+				if len(gone) != 1 || vals[gone[0]] != v {
+					return fail("heap-next-detached", i, c, out, "one next() is one Pop: exactly the element carrying the yielded value %d must have left heap %d; the handles that report Index()=-1 now: %v", v, hk, gone)
+				}
+				if !anyDirty(hk) {
+					for o := range live[hk] {
+						if cmps[hk](vals[o], v) {
+							return fail("heap-next-min", i, c, out, "element %d (value %d) is in the heap and precedes the yielded %d", o, vals[o], v)
+						}
+					}
+				}
+				delete(live[hk], gone[0])
+				delete(dirty, gone[0])
+				if len(live[hk]) == 0 {
+					broken[hk] = false
+				}
+			case "popallbody":
+				if len(t) < 3 || k < 0 {
+					return nil
+				}
+				stop, ok1 := natTok(t[2])
+				items, ok2 := parseBodyItems(t[3:], true, len(vals))
+				if !ok1 || !ok2 {
+					return nil
+				}
+				if res == "runaway" {
+					return fail("heap-popallbody-runaway", i, c, out, "the loop did not end after Len + pushes + 8 iterations")
+				}
+				ys, rs, ok := parseTwoLists(res)
+				if !ok {
+					return fail("heap-format", i, c, out, "unparsable")
+				}
+				script, _ := byIteration(items)
+				mentioned := map[int]bool{} // handles the line names / gets back: kept out of guesses
+				for _, b := range items {
+					if b.act == "rm" || b.act == "fix" {
+						mentioned[b.arg] = true
+					}
+					if zv && !inited[b.heap] {
+						return nil
+					}
+					if anyDirty(b.heap) {
+						broken[b.heap] = true
+					}
+				}
+				for _, x := range rs {
+					mentioned[x] = true
+				}
+				yieldedHere := map[int]bool{}
+				ri := 0
+				for yi, v := range ys {
+					if len(live[k]) == 0 {
+						return fail("heap-popallbody-count", i, c, out, "iteration %d yielded %d although the heap was empty by then", yi, v)
+					}
+					// the element that left: the live one carrying the yielded value
+					y, best := -1, -1
+					ncand := 0
+					for _, e := range keys(live[k]) {
+						if vals[e] != v {
+							continue
+						}
+						ncand++
+						score := 0
+						if e < len(cells) && cells[e].idx == -1 {
+							score += 2
+						}
+						if !mentioned[e] {
+							score++
+						}
+						if score > best {
+							y, best = e, score
+						}
+					}
+					if ncand > 1 {
+						amb = true
+					}
+					if y < 0 {
+						for e := range yieldedHere {
+							if vals[e] == v {
+								return fail("heap-popallbody-twice", i, c, out, "iteration %d yielded %d (element %d) again: it was yielded before in this loop and nobody pushed it back", yi, v, e)
+							}
+						}
+						return fail("heap-popallbody-foreign", i, c, out, "iteration %d yielded %d, which heap %d does not hold at that moment (holding %v)", yi, v, k, keys(live[k]))
+					}
+					if !anyDirty(k) {
+						for o := range live[k] {
+							if cmps[k](vals[o], v) {
+								return fail("heap-popallbody-min", i, c, out, "iteration %d yielded %d (element %d) while element %d (value %d), which precedes it, is in the heap", yi, v, y, o, vals[o])
+							}
+						}
+					}
+					delete(live[k], y)
+					delete(dirty, y)
+					yieldedHere[y] = true
+					// the body of this iteration: the yielded element is NOT in the heap any more
+					for _, b := range script[yi] {
+						h := b.heap
+						r := 0
+						if b.act == "push" || b.act == "peek" || b.act == "pop" || b.act == "len" {
+							if ri >= len(rs) {
+								return fail("heap-popallbody-results", i, c, out, "the bodies that ran must have produced more than %d results", len(rs))
+							}
+							r = rs[ri]
+							ri++
+						}
+						what := fmt.Sprintf("body of iteration %d, %s on heap %d", yi, b.act, h)
+						switch b.act {
+						case "push":
+							if r != len(vals) {
+								return fail("heap-popallbody-push", i, c, out, "%s: Push must return the new element (id %d), got %d", what, len(vals), r)
+							}
+							live[h][len(vals)] = true
+							vals = append(vals, b.arg)
+						case "len":
+							if r != len(live[h]) {
+								return fail("heap-popallbody-len", i, c, out, "%s: Len() = %d, the heap holds %d elements then (the yielded one has left)", what, r, len(live[h]))
+							}
+						case "peek", "pop":
+							if len(live[h]) == 0 {
+								if r != -1 {
+									return fail("heap-popallbody-"+b.act+"-empty", i, c, out, "%s: the heap is empty then, got element %d", what, r)
+								}
+								break
+							}
+							if !live[h][r] {
+								if h == k && r == y {
+									return fail("heap-popallbody-"+b.act+"-yielded", i, c, out, "%s returned element %d, the one this iteration yielded: it must have left the heap before the body runs", what, r)
+								}
+								return fail("heap-popallbody-"+b.act, i, c, out, "%s must return an element of that heap (holding %v), got %d", what, keys(live[h]), r)
+							}
+							if !anyDirty(h) {
+								for o := range live[h] {
+									if cmps[h](vals[o], vals[r]) {
+										return fail("heap-popallbody-"+b.act+"-min", i, c, out, "%s returned element %d (value %d), element %d (value %d) precedes it", what, r, vals[r], o, vals[o])
+									}
+								}
+							}
+							if b.act == "pop" {
+								delete(live[h], r)
+								delete(dirty, r)
+							}
+						case "rm":
+							if live[h][b.arg] {
+								delete(live[h], b.arg)
+								delete(dirty, b.arg)
+							}
+						case "fix":
+							if live[h][b.arg] {
+								delete(dirty, b.arg)
+							}
+						}
+					}
+				}
+				if stop > 0 && len(ys) > stop {
+					return fail("heap-popallbody-count", i, c, out, "the consumer left the loop in iteration %d, %d elements were yielded", stop-1, len(ys))
+				}
+				if (stop == 0 || len(ys) < stop) && len(live[k]) != 0 {
+					return fail("heap-popallbody-count", i, c, out, "the loop ended by itself after %d iterations although heap %d still holds %d elements (%v)", len(ys), k, len(live[k]), keys(live[k]))
+				}
+				if ri != len(rs) {
+					return fail("heap-popallbody-results", i, c, out, "the bodies that ran produce %d results, got %d", ri, len(rs))
+				}
+				for h := 0; h < 2; h++ {
+					if len(live[h]) == 0 {
+						broken[h] = false
 					}
 				}
 			case "popall":
@@ -1056,12 +1330,52 @@ func genHeap(r *core.Rand) core.Case {
 	if r.Chance(40) || zv {
 		doInit(1, !big || r.Chance(25))
 	}
+	// iter.Pull cursors over held Seq values: two (sometimes three) that alternate, on A and B
+	curs := &genCursors{}
+	doPull := func(sl int) {
+		lines = append(lines, fmt.Sprintf("pull %d", sl))
+		curs.add(sl)
+	}
+	var doNext func(cn int)
+	doNext = func(cn int) {
+		lines = append(lines, fmt.Sprintf("next %d", cn))
+		curs.last = cn
+		if curs.done[cn] {
+			return
+		}
+		k := seqs[curs.slot[cn]]
+		if len(g.arr[k]) > 0 {
+			g.pop(k, 'a')
+			return
+		}
+		// the heap is empty: the cursor is finished for good — half of the time the heap gets a
+		// new element right away and the finished cursor is asked again
+		curs.done[cn] = true
+		if r.Chance(50) {
+			next = func() {
+				v := valFor(len(g.vals))
+				lines = append(lines, fmt.Sprintf("push %s %d", names[k], v))
+				g.attach(k, g.alloc(v))
+				next = func() { doNext(cn) }
+			}
+		}
+	}
 	if r.Chance(45) {
 		// Seq values obtained EARLY; they are used late, after the heaps have changed
 		for i := r.Range(1, 3); i > 0; i-- {
 			k := r.Pick(70, 30)
 			lines = append(lines, "seq "+names[k])
 			seqs = append(seqs, k)
+		}
+		if r.Chance(45) {
+			// cursors made early as well (often before the heap has any element)
+			for i := r.Pick(0, 25, 55, 20); i > 0; i-- {
+				sl := r.Intn(len(seqs))
+				if len(curs.slot) > 0 && r.Chance(55) {
+					sl = curs.slot[len(curs.slot)-1] // a second cursor over the SAME Seq
+				}
+				doPull(sl)
+			}
 		}
 	}
 	ops := r.Range(1, 60)
@@ -1072,6 +1386,9 @@ func genHeap(r *core.Rand) core.Case {
 	}
 	if len(seqs) > 0 {
 		ops = max(ops, r.Range(8, 30))
+	}
+	if len(curs.slot) > 0 {
+		ops = max(ops, r.Range(12, 34))
 	}
 	for len(lines) <= ops {
 		if next != nil {
@@ -1097,7 +1414,47 @@ func genHeap(r *core.Rand) core.Case {
 		if len(seqs) > 0 {
 			rangeW, initW = 12, initWeight+3
 		}
-		switch r.Pick(pushW, 14, 3, 2, 20, 9, 5, 1, initW, 9, 9, 3, rangeW, 1, 4) {
+		pullW, nextW, stopW := 0, 0, 0
+		if len(seqs) > 0 {
+			pullW = 3
+			if len(curs.slot) >= 3 {
+				pullW = 1
+			}
+		}
+		if len(curs.slot) > 0 {
+			nextW, stopW = 18, 2
+			rangeW = 6
+		}
+		switch r.Pick(pushW, 14, 3, 2, 20, 9, 5, 1, initW, 9, 9, 3, rangeW, 1, 4, 6, pullW, nextW, stopW) {
+		case 15:
+			// the loop body uses the heaps while PopAll is being ranged over
+			kb := k
+			if len(g.arr[kb]) == 0 && len(g.arr[1-kb]) > 0 && r.Chance(75) {
+				kb = 1 - kb
+			}
+			if len(g.arr[kb]) == 0 && r.Chance(70) {
+				continue
+			}
+			lines = append(lines, genHeapBody(r, g, kb, bodyStop(r, len(g.arr[kb])), cmpNow, valFor, exact))
+		case 16:
+			sl := r.Intn(len(seqs))
+			doPull(sl)
+			if r.Chance(50) {
+				// a second cursor at once, over the same Seq or another one
+				if r.Chance(40) {
+					sl = r.Intn(len(seqs))
+				}
+				doPull(sl)
+			}
+		case 17:
+			doNext(curs.pick(r))
+		case 18:
+			cn := curs.pick(r)
+			lines = append(lines, fmt.Sprintf("stop %d", cn))
+			curs.done[cn] = true
+			if r.Chance(60) {
+				next = func() { doNext(cn) }
+			}
 		case 12:
 			sl := r.Intn(len(seqs))
 			if lastSlot >= 0 && r.Chance(55) {
@@ -1107,6 +1464,9 @@ func genHeap(r *core.Rand) core.Case {
 		case 13:
 			lines = append(lines, "seq "+H)
 			seqs = append(seqs, k)
+			if r.Chance(50) {
+				doPull(len(seqs) - 1)
+			}
 		case 14:
 			// Remove / Fix called on a struct copy `c := *h`: the handle (mostly live in h) is foreign to c
 			e := g.pick(r, k)
@@ -1301,12 +1661,25 @@ func classifyHeap(c core.Case, out []string) []string {
 		mutated, init, initc, other bool // since the Seq was made: push/pushe/rm/setfix/pop on its heap, Init / Init with another comparator of its heap, the OTHER heap modified
 	}
 	var seqs []*seqInfo
+	// iter.Pull cursors: the heap of their Seq, and what happened since they were made
+	type curInfo struct {
+		heap, slot, nexts   int
+		done                bool
+		how                 string // how it finished: stop / exhaustion
+		mutated, init, last bool   // its heap was modified / re-initialised since the previous next(); last: the previous `next` line was this cursor's
+	}
+	var curs []*curInfo
 	modified := func(k int) {
 		for _, q := range seqs {
 			if q.heap == k {
 				q.mutated = true
 			} else {
 				q.other = true
+			}
+		}
+		for _, q := range curs {
+			if q.heap == k {
+				q.mutated = true
 			}
 		}
 	}
@@ -1414,6 +1787,291 @@ func classifyHeap(c core.Case, out []string) []string {
 			if len(seqs) >= 2 {
 				ls = append(ls, "h:seq:several-held")
 			}
+		case "pull":
+			sl, ok := slotOf(t[1], len(seqs))
+			if !ok {
+				break
+			}
+			hk := seqs[sl].heap
+			ls = append(ls, "h:pull:n="+sizeBucket(n[hk]))
+			if n[hk] == 0 {
+				ls = append(ls, "h:pull:empty-heap")
+			}
+			if hk == 1 {
+				ls = append(ls, "h:pull:on-B")
+			}
+			for _, q := range curs {
+				if q.slot == sl {
+					ls = append(ls, "h:pull:same-seq-again")
+					break
+				}
+			}
+			if len(curs) >= 1 {
+				ls = append(ls, "h:pull:several-cursors")
+			}
+			if seqs[sl].ranged > 0 {
+				ls = append(ls, "h:pull:seq-ranged-before")
+			}
+			curs = append(curs, &curInfo{heap: hk, slot: sl})
+		case "stop":
+			cn, ok := slotOf(t[1], len(curs))
+			if !ok {
+				break
+			}
+			q := curs[cn]
+			switch {
+			case q.done:
+				ls = append(ls, "h:stop:finished-cursor")
+			case q.nexts == 0:
+				ls = append(ls, "h:stop:never-started")
+			default:
+				ls = append(ls, "h:stop:active")
+			}
+			if !q.done {
+				q.done, q.how = true, "stop"
+			}
+		case "next":
+			cn, ok := slotOf(t[1], len(curs))
+			if !ok {
+				break
+			}
+			q := curs[cn]
+			hk := q.heap
+			if hk == 1 {
+				ls = append(ls, "h:next:on-B")
+			}
+			active, sameHeap, sameSeq := 0, 0, 0
+			for j, o := range curs {
+				if j != cn && !o.done {
+					active++
+					if o.heap == hk {
+						sameHeap++
+					}
+					if o.slot == q.slot {
+						sameSeq++
+					}
+				}
+			}
+			if q.done {
+				ls = append(ls, "h:next:after-"+q.how)
+				if n[hk] > 0 {
+					// (after exhaustion: somebody pushed since)
+					ls = append(ls, "h:next:after-"+q.how+":heap-nonempty")
+				}
+			} else {
+				if active > 0 {
+					ls = append(ls, "h:next:two-cursors")
+				}
+				if sameHeap > 0 {
+					ls = append(ls, "h:next:two-cursors:same-heap")
+				}
+				if sameSeq > 0 {
+					ls = append(ls, "h:next:two-cursors:same-seq")
+				}
+				if active >= 2 {
+					ls = append(ls, "h:next:three-cursors")
+				}
+				if !q.last && q.nexts > 0 && active > 0 {
+					ls = append(ls, "h:next:alternating")
+				}
+				if q.nexts == 0 {
+					ls = append(ls, "h:next:first")
+				}
+				if q.mutated {
+					ls = append(ls, "h:next:after-mutation")
+				}
+				if q.init {
+					ls = append(ls, "h:next:after-init")
+				}
+				if n[hk] >= 64 {
+					ls = append(ls, "h:next:n>=64")
+				}
+				if n[hk] == 0 {
+					ls = append(ls, "h:next:empty-finishes")
+					q.done, q.how = true, "exhaustion"
+				} else {
+					ls = append(ls, "h:next:yield")
+					if n[hk] == 1 {
+						ls = append(ls, "h:next:yield:last-element")
+					}
+					for o := range own {
+						if own[o] == hk && o < len(cells) && cells[o].idx == -1 {
+							detach(o, "popall")
+						}
+					}
+					for _, o := range seqs {
+						if o.heap == hk {
+							o.mutated = true
+						} else {
+							o.other = true
+						}
+					}
+					for j, o := range curs {
+						if j != cn && o.heap == hk {
+							o.mutated = true
+						}
+					}
+				}
+				q.nexts++
+				q.mutated, q.init = false, false
+			}
+			for j, o := range curs {
+				o.last = j == cn
+			}
+		case "popallbody":
+			if k < 0 || len(t) < 3 {
+				break
+			}
+			stop, ok1 := natTok(t[2])
+			items, ok2 := parseBodyItems(t[3:], true, len(prev))
+			ys, rs, ok3 := parseTwoLists(res)
+			if !ok1 || !ok2 || !ok3 {
+				break
+			}
+			p := "h:popallbody"
+			ls = append(ls, p+":n="+sizeBucket(n[k]))
+			if stop == 0 {
+				ls = append(ls, p+":k=0")
+			} else {
+				ls = append(ls, p+":k>0", p+":"+stopLabel(stop, n[k]))
+			}
+			if [2]int{lenA, lenB}[k] > 0 {
+				ls = append(ls, p+":partial")
+			}
+			if n[k] >= 64 {
+				ls = append(ls, p+":n>=64")
+			}
+			switch {
+			case len(items) == 0:
+				ls = append(ls, p+":items=0")
+			case len(items) <= 2:
+				ls = append(ls, p+":items=1-2")
+			default:
+				ls = append(ls, p+":items=3+")
+			}
+			if len(ys) > n[k] {
+				ls = append(ls, p+":yields>n(pushed-elements-yielded)")
+			}
+			grow(len(cells))
+			script, _ := byIteration(items)
+			cmpf := cmpOf(cmpName[k])
+			ri, ran := 0, 0
+			touched := [2]bool{}
+			touched[k] = true
+			takeRes := func() int {
+				if ri < len(rs) {
+					ri++
+					return rs[ri-1]
+				}
+				return -1
+			}
+			yieldedHere := map[int]bool{}
+			for yi, v := range ys {
+				y := -1
+				for o := range own {
+					if own[o] == k && o < len(cells) && cells[o].val == v {
+						y = o
+						break
+					}
+				}
+				if y >= 0 {
+					detach(y, "popall")
+					yieldedHere[y] = true
+				}
+				if len(script[yi]) > 0 {
+					switch {
+					case yi == 0:
+						ls = append(ls, p+":body@first")
+					case yi == len(ys)-1:
+						ls = append(ls, p+":body@last")
+					case yi >= 3:
+						ls = append(ls, p+":body@middle")
+					}
+				}
+				for bi, b := range script[yi] {
+					ran++
+					touched[b.heap] = true
+					a := p + ":" + b.act
+					if b.heap != k {
+						ls = append(ls, p+":other-heap", a+":other-heap")
+					}
+					switch b.act {
+					case "push":
+						if id := takeRes(); id >= 0 && id < len(own) {
+							own[id] = b.heap
+							seenVals = append(seenVals, b.arg)
+						}
+						switch {
+						case b.heap != k || cmpf == nil:
+						case cmpf(b.arg, v):
+							ls = append(ls, p+":push-preceding")
+							if n[k] >= 64 {
+								ls = append(ls, p+":push-preceding:n>=64")
+							}
+						case cmpf(v, b.arg):
+							ls = append(ls, p+":push-following")
+						default:
+							ls = append(ls, p+":push-tie")
+						}
+					case "peek":
+						takeRes()
+						if bi == 0 && b.heap == k {
+							ls = append(ls, p+":peek-right-after-yield")
+						} else if bi > 0 && script[yi][bi-1].act == "push" && script[yi][bi-1].heap == b.heap {
+							ls = append(ls, p+":peek-after-push")
+						}
+					case "len":
+						takeRes()
+					case "pop":
+						if id := takeRes(); id >= 0 && id < len(own) {
+							detach(id, "pop")
+						} else {
+							ls = append(ls, p+":pop:empty")
+						}
+					case "rm", "fix":
+						e := b.arg
+						if e >= len(own) {
+							break
+						}
+						switch {
+						case own[e] == b.heap:
+							ls = append(ls, a+":live")
+							if b.heap == k && cmpf != nil {
+								first := true
+								for o := range own {
+									if own[o] == k && o < len(cells) && cmpf(cells[o].val, cells[e].val) {
+										first = false
+										break
+									}
+								}
+								if first {
+									ls = append(ls, a+":live:next-to-be-yielded")
+								}
+							}
+							if b.act == "rm" {
+								detach(e, "rm")
+							}
+						case e == y:
+							ls = append(ls, a+":just-yielded")
+						case yieldedHere[e]:
+							ls = append(ls, a+":yielded-earlier")
+						case own[e] == 1-b.heap:
+							ls = append(ls, a+":foreign")
+						default:
+							ls = append(ls, a+":stale")
+						}
+					}
+					ls = append(ls, a)
+				}
+			}
+			if ran < len(items) {
+				ls = append(ls, p+":items-of-iterations-that-never-ran")
+			}
+			for h := 0; h < 2; h++ {
+				if touched[h] {
+					modified(h)
+				}
+			}
 		case "copyrm", "copyfix":
 			if !handleOp {
 				break
@@ -1476,6 +2134,11 @@ func classifyHeap(c core.Case, out []string) []string {
 					}
 				} else {
 					q.other = true
+				}
+			}
+			for _, q := range curs {
+				if q.heap == k {
+					q.init = true
 				}
 			}
 			grow(len(cells))
